@@ -6,6 +6,7 @@ package c16
 
 import (
 	"fmt"
+	"github.com/biogo/biogo/io/featio/gff"
 	"os"
 	"sort"
 	"testing"
@@ -43,6 +44,9 @@ type pileCase struct {
 	// image covers at least PilePct percent of its pile. It is used on the
 	// FIRST Piles call of a fresh piler.
 	PilePct int `json:"pile_pct"`
+	// ViaGFF: the pairs are made by pals.ExpandFeature from GFF features carrying a Target attribute
+	// (the way pairs come back from a PALS feature file), not put together by hand
+	ViaGFF bool `json:"via_gff,omitempty"`
 }
 
 var contigs = []pals.Contig{"c0", "c1", "c2"}
@@ -65,7 +69,27 @@ func build(c pileCase, order []int, flip []bool) (*pals.Piler, []*pals.Pair, []b
 		a := &pals.Feature{ID: fmt.Sprintf("p%da", i), From: pt.A.S, To: pt.A.E, Loc: contigs[pt.A.C]}
 		b := &pals.Feature{ID: fmt.Sprintf("p%db", i), From: pt.B.S, To: pt.B.E, Loc: contigs[pt.B.C]}
 		fp := &pals.Pair{A: a, B: b, Score: pt.Score}
-		if flip != nil && flip[k%len(flip)] {
+		if c.ViaGFF {
+			sc := float64(pt.Score)
+			x, y := pt.A, pt.B
+			if flip != nil && flip[k%len(flip)] {
+				x, y = y, x
+			}
+			g := &gff.Feature{SeqName: string(contigs[x.C]), Source: "pals", Feature: "hit", FeatStart: x.S, FeatEnd: x.E, FeatScore: &sc,
+				FeatAttributes: gff.Attributes{{Tag: "Target", Value: fmt.Sprintf("%s %d %d", contigs[y.C], y.S+1, y.E)}, {Tag: "maxe", Value: "0.1"}}}
+			var err error
+			if fp, err = pals.ExpandFeature(g); err != nil {
+				return nil, nil, nil, vlib.Failf("expand-feature", "pair %d %v: ExpandFeature: %v", i, pt, err)
+			}
+			a, b = fp.A, fp.B
+			if flip != nil && flip[k%len(flip)] {
+				a, b = fp.B, fp.A
+			}
+			a.ID, b.ID = fmt.Sprintf("p%da", i), fmt.Sprintf("p%db", i)
+			if a.From != pt.A.S || a.To != pt.A.E || b.From != pt.B.S || b.To != pt.B.E || a.Loc.Name() != string(contigs[pt.A.C]) || b.Loc.Name() != string(contigs[pt.B.C]) {
+				return nil, nil, nil, vlib.Failf("expand-feature", "pair %d %v: ExpandFeature gave %s[%d,%d) / %s[%d,%d)", i, pt, a.Loc.Name(), a.From, a.To, b.Loc.Name(), b.From, b.To)
+			}
+		} else if flip != nil && flip[k%len(flip)] {
 			fp.A, fp.B = b, a
 		}
 		a.Pair, b.Pair = fp, fp
@@ -249,6 +273,14 @@ func observe(tag string, piles []*pals.Pile, pairs []*pals.Pair, keep func(*pals
 		if fmt.Sprint(g.members) != fmt.Sprint(em) {
 			return vlib.Failf("partition", "%s: pile [%d,%d) holds %v, expected %v", tag, g.from, g.to, g.members, em)
 		}
+	}
+	// the returned list is the caller's: it is compacted and overwritten here, which a later Piles call
+	// must not notice
+	for i := range piles {
+		piles[i] = piles[len(piles)-1-i/2]
+	}
+	if len(piles) > 0 {
+		piles[0] = nil
 	}
 	return nil
 }
@@ -478,6 +510,7 @@ func gen(t *rapid.T) pileCase {
 	c.Filter = rapid.IntRange(0, 11).Draw(t, "filter")
 	c.Calls = rapid.SliceOfN(rapid.IntRange(0, 3), 0, 5).Draw(t, "piles-calls")
 	c.PilePct = rapid.SampledFrom([]int{0, 30, 50, 80, 95, 100}).Draw(t, "pile-pct")
+	c.ViaGFF = rapid.IntRange(0, 3).Draw(t, "via-gff") == 2
 	return c
 }
 
@@ -557,6 +590,9 @@ func classes(c pileCase) []string {
 	}
 	// the pile-aware filter separates pairs (some pass, some do not) and some
 	// pair has its images on two locations
+	if c.ViaGFF {
+		l = append(l, "pairs-made-by-ExpandFeature")
+	}
 	if c.PilePct > 0 {
 		span := map[string]int{}
 		for _, cp := range exp {
